@@ -3,7 +3,7 @@ import ast
 
 import sympy as sp
 
-from vcheck import rules, symx
+from vcheck import effects, rules, symx
 from vcheck.core import PyRepo, AnalysisError, call_name, dotted_name, kwarg, norm, walk_no_nested
 from vcheck.rules import cfg_of
 
@@ -52,7 +52,11 @@ SEMANTIC = ('R18.clip', 'R18.cov', 'R18.wmom',
             'R18.wmed', 'R18.stats::get_stats::plain-definitions',
             # decided on every path of the term-domain execution: the reported terms are positively read as reductions over the whole
             # array (closed vocabulary, no selection) / the delegated clipping call is positively read as not given the weights
-            'R18.stats::get_stats::clipping-honoured')
+            'R18.stats::get_stats::clipping-honoured',
+            # decided by the flow-sensitive buffer-ownership analysis (vcheck.effects) restricted to positively read views: a write
+            # (store, in-place operator, out=, mutating method) into a buffer that may be the caller's array
+            'R18.interp::interplin::inputs-not-written', 'R18.stats::get_stats::inputs-not-written',
+            'R18.boxcar::boxcar_average::inputs-not-written')
 
 
 def run(chk):
@@ -68,6 +72,7 @@ def run(chk):
     wmedian(chk, repo)
     summary(chk, repo)
     boxcar(chk, repo)
+    inputs_kept(chk, repo)
 
 
 class _Env(symx.Env):
@@ -885,8 +890,29 @@ class _MatEval:
                         self.env[x.id] = y
                 else:
                     raise _NoRec("assignment `%s`" % norm(st)[:60])
+            elif isinstance(st, ast.AugAssign) and isinstance(st.target, ast.Name) and isinstance(self.env.get(st.target.id), _Arr):
+                # `M op= v` on an array is done in M's own buffer: the buffer stays (origin, allocating call and with it the dtype;
+                # the caller's matrix when M is the parameter or a re-presentation of it) and every name of that buffer sees the result
+                cur = self.env[st.target.id]
+                if loops or conditional:
+                    raise _NoRec("in-place operator on an array inside a loop or branch `%s`" % norm(st)[:60])
+                was = self.settled(cur)
+                val = self.binop(st.op, _Arr(was.rank, was.fn, was.origin, was.call), self.ev(st.value))
+                if not isinstance(val, _Arr) or val.rank != was.rank:
+                    raise _NoRec("in-place operator `%s` (shape of the operand)" % norm(st)[:60])
+                res = _Arr(was.rank, val.fn, cur.origin, cur.call)
+                for k_, v_ in list(self.env.items()):
+                    if v_ is cur:
+                        self.env[k_] = res
             elif isinstance(st, ast.AugAssign) and isinstance(st.target, ast.Name):
                 self.env[st.target.id] = self.binop(st.op, self.ev(ast.Name(id=st.target.id, ctx=ast.Load())), self.ev(st.value))
+            elif isinstance(st, ast.AugAssign) and isinstance(st.target, ast.Subscript) and isinstance(st.target.value, ast.Name) \
+                    and isinstance(self.env.get(st.target.value.id), _Arr):
+                # `M[i, j] op= v` stores M[i, j] op v into M's buffer (the element read is the one the buffer held before the store)
+                base = self.env[st.target.value.id]
+                idx = self.ev_index(st.target.slice)
+                val = self.binop(st.op, self.index(base, idx), self.ev(st.value))
+                base.stores.append((idx, val, list(loops), conditional, st))
             elif isinstance(st, ast.For):
                 it = st.iter
                 if not (isinstance(it, ast.Call) and call_name(it) == "range" and isinstance(it.func, ast.Name)) and not st.orelse:
@@ -1202,6 +1228,10 @@ class _MatEval:
             return self.ev(args[0])
         if nm in self.COPY and args:
             v = self.ev(args[0])
+            cp = kwarg(c, "copy")
+            if cp is not None and not (isinstance(cp, ast.Constant) and cp.value is True):
+                # copy=False / copy=None / a computed flag: the call may hand back the array it was given
+                return v
             if isinstance(v, _Arr):
                 return _Arr(v.rank, v.fn, "copy", c)
             return v
@@ -1367,7 +1397,10 @@ def covcor(chk, repo):
         else:
             eq = None if got is None else bool(symx.equal(got, ref)[0])
         chk.ob("R18.cov", fi.name + "::element-formula", eq, fi.where(), "element (i,j) is %s (found %s)%s" % (ref, got, why))
-        chk.ob("R18.cov", fi.name + "::returns-new-matrix", None if out is None else out.origin != "param", fi.where(), "a newly allocated matrix is returned%s" % why)
+        chk.ob("R18.cov", fi.name + "::returns-new-matrix", None if out is None else out.origin != "param", fi.where(),
+               "a newly allocated matrix is returned%s%s" % (" (the returned matrix is the parameter `%s` itself, a re-presentation of it that need not copy, "
+                                                             "or the result of storing / operating in place on one)" % pos[0]
+                                                             if out is not None and out.origin == "param" else "", why))
     # symbolic inverse for a positive diagonal: cor2cov(cov2cor(C), sqrt(diag C)) = C
     cii, cjj, cij = sp.symbols("cii cjj", positive=True) + (sp.Symbol("cij", real=True),)
     back = (cij / sp.sqrt(cii * cjj)) * sp.sqrt(cii) * sp.sqrt(cjj)
@@ -1398,6 +1431,135 @@ def covcor(chk, repo):
                     verdicts.append(None)
         ok = True if True in verdicts else (False if (False in verdicts or not (me.rejects or me.unfollowed)) else None)
     chk.ob("R18.cov", "cov2cor::non-positive-diagonal-rejected", ok, fi.where(), "a non-positive diagonal element is rejected (%s)" % sorted(seen))
+
+
+# ---------------------------------------------------------------------------
+# the caller's arrays are read, never written
+# ---------------------------------------------------------------------------
+
+class _AnalyseKept(effects._Analyse):
+    """effects._Analyse in which a subscript is a view of its base only when it is positively read as basic indexing that yields an
+    array (a slice / Ellipsis / newaxis among integer positions, or fewer integer positions than the known rank of a parameter);
+    anything else (an index array, a mask, a name of unknown kind, a full set of positions: an element) is taken as a fresh value,
+    so that a write is only ever attributed to the caller's buffer when every step from the parameter to the written name is read."""
+
+    def __init__(self, eng, fi, flags):
+        effects._Analyse.__init__(self, eng, fi, flags)
+        stores = {}
+        for n in ast.walk(fi.node):
+            if isinstance(n, ast.Name) and isinstance(n.ctx, (ast.Store, ast.Del)):
+                stores[n.id] = stores.get(n.id, 0) + 1
+        self.counters = set()
+        for n in ast.walk(fi.node):
+            if isinstance(n, ast.For) and isinstance(n.target, ast.Name) and isinstance(n.iter, ast.Call) and isinstance(n.iter.func, ast.Name) \
+                    and n.iter.func.id == "range" and stores.get(n.target.id) == 1 and n.target.id not in self.params:
+                self.counters.add(n.target.id)
+
+    def _position(self, x):
+        """'int' (one integer position), 'axis' (keeps / adds an axis), None (not read)"""
+        if isinstance(x, ast.Slice):
+            return "axis"
+        if isinstance(x, ast.Constant):
+            if x.value is None or x.value is Ellipsis:
+                return "axis"
+            return "int" if (isinstance(x.value, int) and not isinstance(x.value, bool)) else None
+        if isinstance(x, ast.UnaryOp) and isinstance(x.op, ast.USub):
+            return "int" if self._position(x.operand) == "int" else None
+        if isinstance(x, ast.BinOp) and isinstance(x.op, (ast.Add, ast.Sub)):
+            return "int" if self._position(x.left) == "int" and self._position(x.right) == "int" else None
+        if isinstance(x, ast.Name) and x.id in self.counters:
+            return "int"
+        d = dotted_name(x) if isinstance(x, (ast.Name, ast.Attribute)) else None
+        if d and self.eng.repo.resolve_name(self.fi.module, d) == "numpy.newaxis":
+            return "axis"
+        return None
+
+    def val(self, e, env):
+        if isinstance(e, ast.Subscript):
+            base = effects._Analyse.val(self, e.value, env)
+            elts = e.slice.elts if isinstance(e.slice, ast.Tuple) else [e.slice]
+            kinds = [self._position(x) for x in elts]
+            view = None not in kinds and "axis" in kinds
+            if not view and None not in kinds and isinstance(e.value, ast.Name):
+                ranks = [self.eng.ranks.get((self.fi.qualname, t[1])) for t in base if t[0] == "P" and t[2] == "same"]
+                pt = [t for t in base if t[0] == "P"]
+                view = bool(pt) and len(ranks) == len(pt) and all(r is not None and len(kinds) < r for r in ranks)
+            if not view:
+                return {effects.FRESH}
+            return {("P", t[1], "view", t[3]) if t[0] == "P" else t for t in base} or {effects.FRESH}
+        return effects._Analyse.val(self, e, env)
+
+
+class _EffectsKept(effects.Effects):
+    """effects.Effects whose summaries are computed by _AnalyseKept; `ranks`: (function, parameter) -> known rank of the array"""
+
+    def __init__(self, repo, ranks=None):
+        effects.Effects.__init__(self, repo)
+        self.ranks = dict(ranks or {})
+
+    def summary(self, fi, flags=None):
+        flags = dict(flags or {})
+        key = (fi.qualname, tuple(sorted((k, repr(v)) for k, v in flags.items())))
+        if key in self.memo:
+            return self.memo[key]
+        if key in self.stack:
+            return effects.Summary()
+        self.stack.append(key)
+        try:
+            s = _AnalyseKept(self, fi, flags).run()
+        finally:
+            self.stack.pop()
+        self.memo[key] = s
+        return s
+
+
+# routine -> (rule id, the array inputs: positions among the positional parameters / public names, known ranks by position)
+_ARRAY_INPUTS = (
+    ("cov2cor", "R18.cov", (0,), {0: 2}),
+    ("cor2cov", "R18.cov", (0, 1), {0: 2, 1: 1}),
+    ("wmom", "R18.wmom", (0, 1), {}),
+    ("sigma_clip", "R18.clip", (0, "weights"), {}),
+    ("wmedian", "R18.wmed", (0, 1), {}),
+    ("interplin", "R18.interp", (0, 1, 2), {}),
+    ("get_stats", "R18.stats", (0, "weights"), {}),
+    ("boxcar_average", "R18.boxcar", (0,), {}),
+)
+
+
+def inputs_kept(chk, repo):
+    """Every routine of this property is a function of its array inputs: the covariance put through cov2cor and back, the data whose
+    surviving subset sigma_clip reports by position, the tables interplin is asked about again are the caller's arrays and must hold
+    after the call what they held before it.  Necessary: on no path is there a store, an in-place operator, an out= / mutating library
+    call or a mutating method whose target may be the buffer of an array parameter (the parameter itself, a re-presentation of it
+    that need not copy -- asarray / atleast_1d / astype(copy=False) ... -- or a basic-indexing view of one), here or in a package
+    function the array is handed to."""
+    ranks = {}
+    units = []
+    for name, rule, roles, rk in _ARRAY_INPUTS:
+        fi = repo.func(ST + name)
+        pos = [p for p in fi.params if not p.startswith("*")]
+        ps = []
+        for r in roles:
+            p = pos[r] if isinstance(r, int) and r < len(pos) else (r if r in pos else None)
+            if p is not None:
+                ps.append(p)
+                if r in rk:
+                    ranks[(fi.qualname, p)] = rk[r]
+        units.append((fi, rule, ps, len(ps) == len(roles)))
+    eng = _EffectsKept(repo, ranks)
+    for fi, rule, ps, complete in units:
+        try:
+            s = eng.summary(fi)
+            sites = [(p, st) for p in ps for st in s.mut.get(p, []) if st.kind == "data"]
+            ok = False if sites else (True if complete else None)
+            why = "; ".join("what may be the buffer of the caller's `%s` is written by %s" % (p, st.describe()) for p, st in sites[:3]) \
+                or ("none of %s is written" % ", ".join(ps) if complete else "the array parameters were not all found")
+            where = sites[0][1].where() if sites else fi.where()
+        except (AnalysisError, RecursionError, KeyError, AttributeError, TypeError, ValueError, IndexError) as ex:
+            ok, where, why = None, fi.where(), "not read: %s: %s" % (type(ex).__name__, str(ex)[:160])
+        chk.ob(rule, fi.name + "::inputs-not-written", ok, where,
+               "the caller's arrays hold after the call what they held before it (no store, in-place operator, out= or mutating call "
+               "reaches the buffer of an array parameter): %s" % why)
 
 
 # ---------------------------------------------------------------------------
